@@ -21,7 +21,15 @@ var generators = map[string]func(repo string) (string, error){}
 func main() {
 	repo := flag.String("repo", "/repo", "repository root")
 	out := flag.String("out", "", "output directory")
+	digest := flag.String("digest", "", "write per-declaration source digests (JSON) to this file and exit")
 	flag.Parse()
+	if *digest != "" {
+		if err := writeDigests(*repo, *digest); err != nil {
+			fmt.Fprintln(os.Stderr, err)
+			os.Exit(1)
+		}
+		return
+	}
 	if *out == "" {
 		fmt.Fprintln(os.Stderr, "usage: extract -repo /repo -out dir")
 		os.Exit(2)
